@@ -25,6 +25,16 @@
 #define CAP 8
 #endif
 #include "rep.h"
+/* EXACT_ALLOC: the arrays have exactly themax cells (symbolic size: every out-of-bounds access is caught, but the SAT
+ * encoding is ~8x larger) and only the memory-safety/frame/no-throw obligations are kept (ENSURES -> true).
+ * Otherwise the arrays have CAP >= themax cells (constant size, small encoding) and the full postcondition is proved. */
+#ifdef EXACT_ALLOC
+#define ALLOC_N themax
+#define ENSURES(e) __CPROVER_ensures(1)
+#else
+#define ALLOC_N CAP
+#define ENSURES(e) __CPROVER_ensures(e)
+#endif
 
 int g_g, g_h, g_i, g_j, g_x, g_c0, g_n0, g_s0, g_last, v_kidx, v_dat, v_a, v_b;
 
@@ -47,8 +57,8 @@ static void havoc_ghosts(void)
 #define HEADC    (-(FF + 1))
 
 #define FRESH_SET (1 <= themax && themax <= CAP \
-   && __CPROVER_is_fresh(item, themax * sizeof(long long)) && __CPROVER_is_fresh(key, themax * sizeof(long long)) \
-   && __CPROVER_is_fresh(rank, themax * sizeof(int)) \
+   && __CPROVER_is_fresh(item, ALLOC_N * sizeof(long long)) && __CPROVER_is_fresh(key, ALLOC_N * sizeof(long long)) \
+   && __CPROVER_is_fresh(rank, ALLOC_N * sizeof(int)) \
    && __CPROVER_is_fresh(thesize, sizeof(int)) && __CPROVER_is_fresh(thenum, sizeof(int)) && __CPROVER_is_fresh(firstfree, sizeof(int)))
 #define S_OK       (0 <= NM && NM <= SZ && SZ <= themax)
 #define INCELL(i)  (0 <= (i) && (i) < SZ)
@@ -127,10 +137,10 @@ __CPROVER_requires(FF == END || (R123_AT(HEADC, -1, 0) && R4_AT(HEADC, g_i, -1, 
 __CPROVER_requires(g_n0 == NM && g_s0 == SZ) \
 __CPROVER_requires(!(0 <= g_h && g_h < NM) || (K_AT(g_h) && v_kidx == KIDX(g_h) && v_dat == DAT(KIDX(g_h))))
 #define CREATE_ENSURES \
-__CPROVER_ensures(NM == g_n0 + 1 && (SZ == g_s0 || SZ == g_s0 + 1) && S_OK) \
-__CPROVER_ensures(0 <= *newidx && *newidx < SZ && INFO(*newidx) == g_n0 && KIDX(g_n0) == *newidx) \
-__CPROVER_ensures(!(0 <= g_h && g_h < g_n0) || (KIDX(g_h) == v_kidx && v_kidx != *newidx && INFO(v_kidx) == g_h && DAT(v_kidx) == v_dat)) \
-__CPROVER_ensures(INV_GHOSTS(-1, 0))
+ENSURES(NM == g_n0 + 1 && (SZ == g_s0 || SZ == g_s0 + 1) && S_OK) \
+ENSURES(0 <= *newidx && *newidx < SZ && INFO(*newidx) == g_n0 && KIDX(g_n0) == *newidx) \
+ENSURES(!(0 <= g_h && g_h < g_n0) || (KIDX(g_h) == v_kidx && v_kidx != *newidx && INFO(v_kidx) == g_h && DAT(v_kidx) == v_dat)) \
+ENSURES(INV_GHOSTS(-1, 0))
 #endif
 
 #ifdef INST_create
@@ -138,7 +148,7 @@ int w_create(long long* item, long long* key, int themax, int* thesize, int* the
 CREATE_REQUIRES
 __CPROVER_assigns(__CPROVER_object_whole(item), __CPROVER_object_whole(key), *thesize, *thenum, *firstfree, *newidx)
 CREATE_ENSURES
-__CPROVER_ensures(__CPROVER_return_value == 1)
+ENSURES(__CPROVER_return_value == 1)
 ;
 void h_create(void)
 {
@@ -154,7 +164,7 @@ void w_add(long long* item, long long* key, int themax, int* thesize, int* thenu
 CREATE_REQUIRES
 __CPROVER_assigns(__CPROVER_object_whole(item), __CPROVER_object_whole(key), *thesize, *thenum, *firstfree, *newidx)
 CREATE_ENSURES
-__CPROVER_ensures(DAT(*newidx) == val)
+ENSURES(DAT(*newidx) == val)
 ;
 void h_add(void)
 {
@@ -180,11 +190,11 @@ __CPROVER_requires(__CPROVER_is_fresh(out_keyidx, sizeof(int)) && __CPROVER_is_f
    && __CPROVER_is_fresh(out_same_elem, sizeof(int)) && __CPROVER_is_fresh(out_val_k, sizeof(int)))
 __CPROVER_requires(v_a == INFO(kidx) && v_b == DAT(kidx) && v_kidx == KIDX(n))
 __CPROVER_assigns(*out_keyidx, *out_num_of_key_n, *out_num_of_k, *out_has_k, *out_has_n, *out_same_elem, *out_val_k, *thesize, *thenum, *firstfree)
-__CPROVER_ensures(*out_keyidx == v_kidx && *out_num_of_key_n == n && *out_has_n == 1 && *out_same_elem == 1)
-__CPROVER_ensures(*out_num_of_k == v_a && *out_has_k == (v_a >= 0) && *out_val_k == v_b)
-__CPROVER_ensures(!(*out_has_k) || (ISNUM(*out_num_of_k) && KIDX(*out_num_of_k) == kidx))
-__CPROVER_ensures(INFO(kidx) == v_a && DAT(kidx) == v_b && KIDX(n) == v_kidx)
-__CPROVER_ensures(SZ == __CPROVER_old(*thesize) && NM == __CPROVER_old(*thenum) && FF == __CPROVER_old(*firstfree))
+ENSURES(*out_keyidx == v_kidx && *out_num_of_key_n == n && *out_has_n == 1 && *out_same_elem == 1)
+ENSURES(*out_num_of_k == v_a && *out_has_k == (v_a >= 0) && *out_val_k == v_b)
+ENSURES(!(*out_has_k) || (ISNUM(*out_num_of_k) && KIDX(*out_num_of_k) == kidx))
+ENSURES(INFO(kidx) == v_a && DAT(kidx) == v_b && KIDX(n) == v_kidx)
+ENSURES(SZ == __CPROVER_old(*thesize) && NM == __CPROVER_old(*thenum) && FF == __CPROVER_old(*firstfree))
 ;
 void h_lookup(void)
 {
@@ -213,14 +223,14 @@ __CPROVER_requires(!ISNUM(g_h) || (v_kidx == KIDX(g_h) && v_dat == DAT(KIDX(g_h)
 __CPROVER_requires(!INCELL(g_i) || v_a == INFO(g_i))
 __CPROVER_requires(0 <= g_g && g_g < themax && v_b == KIDX(g_g))
 __CPROVER_assigns(__CPROVER_object_whole(item), __CPROVER_object_whole(key), *thesize, *thenum, *firstfree)
-__CPROVER_ensures(HASNUM || (NM == g_n0 && SZ == g_s0 && FF == __CPROVER_old(*firstfree) && KIDX(g_g) == v_b
+ENSURES(HASNUM || (NM == g_n0 && SZ == g_s0 && FF == __CPROVER_old(*firstfree) && KIDX(g_g) == v_b
                              && (!(0 <= g_i && g_i < g_s0) || INFO(g_i) == v_a)
                              && (!(0 <= g_h && g_h < g_n0) || DAT(v_kidx) == v_dat)))
-__CPROVER_ensures(!HASNUM || (NM == g_n0 - 1 && SZ <= g_s0 && S_OK && (g_x >= SZ || INFO(g_x) < 0)))
-__CPROVER_ensures(!(HASNUM && 0 <= g_h && g_h < g_n0 && g_h != removenum)
+ENSURES(!HASNUM || (NM == g_n0 - 1 && SZ <= g_s0 && S_OK && (g_x >= SZ || INFO(g_x) < 0)))
+ENSURES(!(HASNUM && 0 <= g_h && g_h < g_n0 && g_h != removenum)
                   || (INCELL(v_kidx) && DAT(v_kidx) == v_dat && INFO(v_kidx) == (g_h == g_n0 - 1 ? removenum : g_h)
                       && KIDX(INFO(v_kidx)) == v_kidx))
-__CPROVER_ensures(!HASNUM || INV_GHOSTS(g_x, g_c0))
+ENSURES(!HASNUM || INV_GHOSTS(g_x, g_c0))
 ;
 void h_remove1(void)
 {
